@@ -1,6 +1,6 @@
 """C14 - mnemonic sentences follow BIP39 in every language and round-trip."""
 CONTRACT_MODULES = ['contracts.mnemonic']
-CONTRACTS = ['bitcoinlib.mnemonic.Mnemonic.to_seed[dataflow]']
+CONTRACTS = ['bitcoinlib.mnemonic.Mnemonic.to_seed[dataflow]', 'bitcoinlib.mnemonic.Mnemonic.to_seed[dataflow-validate]']
 LEVEL = 'other'
 LEVEL_TEXT = ('MOSTLY BOUNDED. Proved: the data flow of Mnemonic.to_seed - the seed is PBKDF2-HMAC-SHA512 over UTF-8(NFKD(sentence)) with salt '
               '"mnemonic" || UTF-8(NFKD(passphrase)), 2048 rounds, for every sentence and passphrase text (normalisation, UTF-8 and PBKDF2 are '
